@@ -34,8 +34,11 @@ def varstr(s):
     return [len(b) + 2, 1] + b
 
 
-def product_info():
+def product_info(strings=None):
     # N2k version, product code, model id, software code, model version, serial code (32 bytes each, 0xFF padded), certification, load
+    if strings is not None:
+        f = lambda b: list(b[:32]) + [0xff] * (32 - len(b[:32]))
+        return le(2101, 2) + le(666, 2) + f(strings[0]) + f(strings[1]) + f(strings[2]) + f(strings[3]) + [0, 1]
     return le(2101, 2) + le(666, 2) + fixed32('Arduino N2k->PC') + fixed32('1.0.0.0') + fixed32('1.0.0') + fixed32('00000001') + [0, 1]
 
 
@@ -102,6 +105,7 @@ class Ref:
         self.claim_until = [None] * self.ndev
         self.retry = [{126996: None, 126998: None} for _ in range(self.ndev)]
         self.names = [device_name(i) for i in range(self.ndev)]
+        self.prod = None                        # strings given by SetProductInformation at run time (None = the library's default)
         self.handler = cfg.get('iso')           # None = no application handler
         self.ev = []
         self.lenient_notes = False
@@ -163,7 +167,7 @@ class Ref:
         return True
 
     def send_info(self, k, pgn):
-        ok = self.send(k, pgn, 255, product_info() if pgn == 126996 else config_info(self.cfg), True)
+        ok = self.send(k, pgn, 255, product_info(self.prod) if pgn == 126996 else config_info(self.cfg), True)
         self.retry[k][pgn] = None if ok else self.now + 187 + (8 if pgn == 126996 else 10) * self.src(k)
 
     # --- the property
@@ -244,6 +248,9 @@ class Ref:
             self.rxq.append((int(o[1], 16), int(o[2]), list(bytes.fromhex(o[3]))))
         elif o[0] == 'P':
             self.poll()
+        elif o[0] == 'K' and len(o) >= 6:
+            # SetProductInformation (device 0; the other devices report device 0's): by strings (s) or by pointer (p), the latest call counts
+            self.prod = [bytes.fromhex(x) if x != '-' else b'' for x in o[2:6]]
         elif o[0] == 'D' and len(o) >= 7:
             # SetDeviceInformation(unique, function, class, manufacturer, industry, iDev): the NAME the next address claims carry
             i, uq, fn, cl, mf, ig = (int(x) for x in o[1:7])
@@ -423,6 +430,11 @@ def cfg_line(r, ndev=None, mode=None, q=None, src0=None, lists=True):
                 s += ' rx%d=%s' % (i, ','.join(str(128000 + j) for j in range(r.choice([66, 67, 68, 80]))))
     if r.random() < 0.1:
         s += ' ok=1'
+    if r.random() < 0.15:
+        # the application's own PGN lists may name PGNs the library handles itself (requests, claims, group functions): they stay system messages (seed C08-15)
+        s += ' %s=%s' % (r.choice(['sf1', 'sf0']), ','.join(str(p) for p in r.sample([59904, 60928, 59392, 65300, 127250], 3)))
+        if r.random() < 0.5:
+            s += ' fp1=%s' % ','.join(str(p) for p in r.sample([126208, 126996, 126464, 130900, 65240], 2))
     return s, ndev, src0, mode
 
 
@@ -568,6 +580,19 @@ def gen(seed, tier):
             if r.random() < 0.4:
                 ops.append('P')
         ops += ['A', 'T 3000', 'P', 'P']
+        cases.append(line + ' | ' + ' ; '.join(ops))
+    # 5d. product information configured several times, by strings and by pointer in any order (the latest call counts; seed C08-13), strings
+    #     of 0..32 characters, requests in between
+    for _ in range(12 * N):
+        line, ndev, src0, mode = cfg_line(r, ndev=r.choice([1, 2]), mode=1, lists=False)
+        own = [own_addr(src0, i) for i in range(ndev)]
+        hx = lambda n: bytes(r.choice(b'ABCDEFGHabcdefgh0123456789 .-') for _ in range(n)).hex() or '-'
+        ops = []
+        for _k in range(r.randint(2, 5)):
+            ops.append('K %s %s %s %s %s' % (r.choice('sp'), hx(r.choice([0, 1, 10, 31, 32])), hx(r.choice([0, 5, 32])), hx(r.choice([0, 5, 32])), hx(r.choice([0, 8, 32]))))
+            if r.random() < 0.7:
+                ops += [req(r, 50, r.choice(own + [255]), 126996), 'P']
+        ops += [req(r, 51, own[-1], 126996), 'P', 'Q pi 0', 'T 3000', 'P']
         cases.append(line + ' | ' + ' ; '.join(ops))
     # 6. devices without a valid address (252, 253, 254): only the address claim may be sent
     #    (254 is not configured: Open() replaces the null address by a free one)
